@@ -695,7 +695,8 @@ func NewModuleConfig() ModuleConfig {
 
 // clone makes a deep copy of this module config.
 func (c *moduleConfig) clone() *moduleConfig {
-	ret := *c // copy except maps which share a ref
+	ret := *c // copy except slices and maps which share a ref
+	ret.environ = append([][]byte(nil), c.environ...)
 	ret.environKeys = make(map[string]int, len(c.environKeys))
 	for key, value := range c.environKeys {
 		ret.environKeys[key] = value
